@@ -22,7 +22,7 @@ def run(chk):
     rng = chk.rng.fork("c02")
     progs, icases, mcases = [], [], []
     for i in range(n):
-        p = asm_gen.gen_pcassert_prog(rng) if rng.chance(0.03) else asm_gen.gen_frozen_prog(rng) if rng.chance(0.03) else asm_gen.gen_scope_prog(rng) if rng.chance(0.03) else asm_gen.gen_chain_prog(rng) if rng.chance(0.1) else asm_gen.gen_shift_prog(rng) if rng.chance(0.15) else asm_gen.gen_prog(rng, size_static=rng.chance(0.25), collide=rng.chance(0.35), boundary=rng.chance(0.2))
+        p = asm_gen.gen_widthflip_prog(rng) if rng.chance(0.04) else asm_gen.gen_unsized_prog(rng) if rng.chance(0.03) else asm_gen.gen_pcassert_prog(rng) if rng.chance(0.03) else asm_gen.gen_frozen_prog(rng) if rng.chance(0.03) else asm_gen.gen_scope_prog(rng) if rng.chance(0.03) else asm_gen.gen_chain_prog(rng) if rng.chance(0.1) else asm_gen.gen_shift_prog(rng) if rng.chance(0.15) else asm_gen.gen_prog(rng, size_static=rng.chance(0.25), collide=rng.chance(0.35), boundary=rng.chance(0.2))
         b = rng.weighted([(1, 5), (2, 10), (3, 15), (4, 15), (5, 10), (10, 25), (11, 5), (30, 15)]) if rng.chance(0.8) else rng.range(1, 30)
         s, m = rng.chance(0.5), rng.chance(0.5)
         progs.append((p, b, s, m))
@@ -92,6 +92,9 @@ def run(chk):
     # the larger fragment (banks, nested symbols): Model/Resolver2.v
     ext_resolver2.run_streams(chk, quick, which=("correspondence",))
     fn_certificate_stream(chk, quick, R)
+    # asm blocks with several labels: the emitted bits must be the block's in-place meaning (decoded from the output)
+    import c17
+    c17.multi_label_stream(chk, quick, R=R)
 
 
 def fn_certificate_stream(chk, quick, R):
